@@ -45,7 +45,7 @@ func checkC10(c *Ctx) {
 			if l.Truth && l.S.Op == "bin" && l.S.Name == "==" && symMentions(l.S, "nil") {
 				for _, a := range l.S.Args {
 					if a.Op == "extract" && a.Name == "1" {
-						if kv, ok := m.isKVCall(a.Args[0].V, "Get"); ok && kv.Parent() == op.Fn {
+						if kv, ok := m.isKVCall(a.Args[0].V, "Get"); ok && (kv.Parent() == op.Fn || m.staticReach(kv.Parent(), false)[op.Fn]) {
 							get = kv
 						}
 					}
@@ -100,7 +100,7 @@ func checkC10(c *Ctx) {
 			c.viol("R1", "strictly higher priority in "+fn, op.Call, "no comparison of %s with the decoded record's priority guards the Update (guards: %s)", own, clip(fmtLits(gs), 400))
 		}
 		// revision argument
-		rev := m.Sym.Of(op.Call.Call.Args[2])
+		rev := m.Sym.Of(m.traceValue(op.Call.Call.Args[2]))
 		okRev := rev.Op == "invoke" && strings.HasSuffix(rev.Name, "Entry.Revision") && len(rev.Args) == 1 && rev.Args[0].Op == "extract" && rev.Args[0].Name == "0" && rev.Args[0].Args[0].V == ssa.Value(get)
 		c.check(okRev, "R1", "takeover presents the read revision in "+fn, op.Call, "revision argument %s; required: Revision() of the entry returned by the Get at %s", rev, c.posOf(get))
 	}
